@@ -1,3 +1,4 @@
+import Hannibal.Props.SendErrCurrent
 import Hannibal.Props.C04PCurrent
 import Hannibal.Props.C04Current
 import Hannibal.Props.C04QCurrent
@@ -10,3 +11,5 @@ import Hannibal.Props.C04QCurrent
 #print axioms Hannibal.monC04q_step
 #print axioms Hannibal.C04p_holds
 #print axioms Hannibal.C04p_current
+#print axioms Hannibal.SendErr_holds
+#print axioms Hannibal.SendErr_current
